@@ -17,6 +17,7 @@ package main
 import (
 	"fmt"
 	"go/types"
+	"math/big"
 
 	"golang.org/x/tools/go/ssa"
 )
@@ -93,10 +94,16 @@ func (w *World) ruleCountGuardsTight(r *Report, rule string, min int) {
 			return false
 		}
 		cnt := 0
+		inLoop := map[*ssa.BasicBlock]bool{}
+		for _, lp := range naturalLoops(fn) {
+			for b := range lp.body {
+				inLoop[b] = true
+			}
+		}
 		for _, b := range fn.Blocks {
 			iff, ok := b.Instrs[len(b.Instrs)-1].(*ssa.If)
-			if !ok {
-				continue
+			if !ok || inLoop[b] {
+				continue // a loop test (`for left := n; left > 0; left--`) is not a guard
 			}
 			bo, ok := iff.Cond.(*ssa.BinOp)
 			if !ok {
@@ -119,7 +126,10 @@ func (w *World) ruleCountGuardsTight(r *Report, rule string, min int) {
 			if k.Int64() < -1 || k.Int64() > 1 {
 				continue
 			}
-			if !wire(operand, 0) {
+			// the size of a container already in memory (v.Len(), len(s)): an early
+			// return may treat the empty container specially, nothing larger
+			size := isSizeValue(operand, 0)
+			if !size && !wire(operand, 0) {
 				continue
 			}
 			for _, succ := range b.Succs {
@@ -143,14 +153,21 @@ func (w *World) ruleCountGuardsTight(r *Report, rule string, min int) {
 					continue
 				}
 				// only lower-bound refusals: the refused side is the one below the constant
-				if !set.Empty() && set.Min().Sign() >= 0 {
-					continue // an upper bound (too large): not this rule
+				if !set.Empty() && set.Min().Cmp(big.NewInt(k.Int64())) > 0 {
+					continue // the side above the constant (too large): not this rule
 				}
 				n++
 				cnt++
 				ok2 := set.Empty() || set.Max().Sign() < 0
 				fact := fmt.Sprintf("the side that only returns carries %s ∈ %s", f.term(operand).Key(), set)
-				if ok2 {
+				if size {
+					ok2 = set.Empty() || set.Max().Sign() <= 0
+					if ok2 {
+						fact += ": only the empty container takes the early return"
+					} else {
+						fact += ": a container with elements takes the early return — its elements are dropped"
+					}
+				} else if ok2 {
 					fact += ": only negative values are refused"
 				} else {
 					fact += ": a non-negative value is refused — 0 is a legal count / the first index"
